@@ -227,7 +227,7 @@ fn norm_act(a: &Act) -> Act {
 	}
 }
 fn norm(d: &DDiff) -> DDiff {
-	DDiff { info: d.info.clone(), doc: d.doc.clone(), classes: d.classes.iter().map(|c| DClass {
+	DDiff { info: d.info.clone(), doc: norm_act(&d.doc), classes: d.classes.iter().map(|c| DClass {
 		name: c.name.clone(), info: norm_act(&c.info), doc: norm_act(&c.doc),
 		fields: c.fields.iter().map(|f| DField { name: f.name.clone(), desc: f.desc.clone(), info: norm_act(&f.info), doc: norm_act(&f.doc) }).collect(),
 		methods: c.methods.iter().map(|m| DMeth { name: m.name.clone(), desc: m.desc.clone(), info: norm_act(&m.info), doc: norm_act(&m.doc),
